@@ -1,6 +1,7 @@
 package props
 
 import (
+	"net"
 	"bytes"
 	"fmt"
 	"os"
@@ -385,5 +386,145 @@ func TestC06_BIN(t *testing.T) {
 			return v
 		}
 		return binHealthQuick(in)
+	})
+}
+
+// ---- one side stops draining for a while, the other keeps sending; then everything must still arrive ----
+
+type c06Stall struct {
+	Opts    gwOpts   `json:"gateway"`
+	Kind    string   `json:"transport"`
+	Who     string   `json:"who_stalls"` // client (stops reading what the host sends) | host (stops reading what the client sends)
+	StallMs int      `json:"stall_ms"`
+	During  []string `json:"client_sends_during_stall"` // ka | data | unk (client stall only: the client still writes)
+	Seed    byte     `json:"seed"`
+}
+
+func runC06Stall(c c06Stall, o gwOpts, tgt gwc.Target) *Violation {
+	w := W()
+	snap := w.snap()
+	defer w.observe(snap, 0)
+	conn, err := gwc.Dial(c.Kind, tgt, sess.NewConnID())
+	if err != nil {
+		return viol("c06/open", "transport did not open: %v", err)
+	}
+	defer conn.Close()
+	setup, _ := render(histCfg{Opts: o, Kind: c.Kind}, []PktSpec{{K: "hs", Caps: o.serverCaps()}, {K: "tc", Cookie: map[bool]string{true: "valid:A", false: "none"}[o.TokenAuth]}, {K: "ta"}, {K: "cc", Host: "A"}}, "127.0.0.1")
+	for _, u := range setup {
+		if err := conn.Send(u); err != nil {
+			return viol("c06/setup", "send failed during set-up: %v", err)
+		}
+	}
+	host := w.L["A"].WaitAccept(snap["A"]+1, 10*time.Second)
+	if host == nil {
+		return viol("c06/setup", "no backend connection after a valid set-up; got %d units", len(conn.Units()))
+	}
+	defer host.Close()
+	desc := fmt.Sprintf("%s, the %s does not read for %d ms", c.Kind, c.Who, c.StallMs)
+	stall := time.Duration(c.StallMs) * time.Millisecond
+	if c.Who == "client" {
+		ws := conn.(*gwc.WS)
+		ws.Pause(true)
+		// the host writes until its writes stall
+		total := 0
+		for total < 96<<20 {
+			b := streamBytes(c.Seed, total, 32768)
+			host.C.SetWriteDeadline(time.Now().Add(250 * time.Millisecond))
+			n, err := host.C.Write(b)
+			total += n
+			if err != nil {
+				if ne, ok := err.(net.Error); ok && ne.Timeout() {
+					break
+				}
+				return viol("c06/stall/host-write", "the host's connection broke while the client was not reading (%s): %v", desc, err)
+			}
+		}
+		// meanwhile the client still talks
+		var c2h []byte
+		for i, k := range c.During {
+			switch k {
+			case "ka":
+				conn.Send(tsgu.Keepalive())
+			case "unk":
+				conn.Send(tsgu.Packet(0x0C, []byte{1, 2, 3}))
+			case "data":
+				b := streamBytes(c.Seed+1, len(c2h), 500+i)
+				c2h = append(c2h, b...)
+				conn.Send(tsgu.Data(b))
+			}
+		}
+		time.Sleep(stall)
+		ws.Pause(false)
+		tail := streamBytes(c.Seed, total, 1000)
+		host.C.SetWriteDeadline(time.Now().Add(20 * time.Second))
+		if _, err := host.C.Write(tail); err != nil {
+			return viol("c06/stall/host-to-client", "the host could not continue after the client resumed reading (%s): %v", desc, err)
+		}
+		total += len(tail)
+		got, perr, ended := pollDataPayload(conn, total, 30*time.Second)
+		if perr != nil {
+			return viol("c06/stall/malformed", "%v (%s)", perr, desc)
+		}
+		want := streamBytes(c.Seed, 0, total)
+		if !bytes.Equal(got, want) {
+			return viol("c06/stall/host-to-client", "the host wrote %d bytes, the client received %d (first difference at %d, tunnel ended=%v) after sending %v while it was not reading (%s)", total, len(got), firstDiff(got, want), ended, c.During, desc)
+		}
+		if !host.WaitBytes(len(c2h), 10*time.Second) || !bytes.Equal(host.Received(), c2h) {
+			return viol("c06/stall/client-to-host", "the client sent %d payload bytes during the stall, the host received %d (%s)", len(c2h), len(host.Received()), desc)
+		}
+		return nil
+	}
+	// the host stalls: the client sends until its sends stall, the host resumes after the stall
+	host.Pause(true)
+	total := 0
+	start := time.Now()
+	sendDone := make(chan error, 1)
+	const totalWant = 24 << 20
+	go func() {
+		for total < totalWant {
+			b := streamBytes(c.Seed, total, 32000)
+			if err := conn.Send(tsgu.Data(b)); err != nil {
+				sendDone <- err
+				return
+			}
+			total += len(b)
+		}
+		sendDone <- nil
+	}()
+	time.Sleep(stall)
+	host.Pause(false)
+	if err := <-sendDone; err != nil {
+		return viol("c06/stall/client-send", "the client could not send its stream although the host resumed reading after %v (%s): %v", time.Since(start), desc, err)
+	}
+	want := streamBytes(c.Seed, 0, total)
+	if !host.WaitBytes(total, 30*time.Second) || !bytes.Equal(host.Received(), want) {
+		got := host.Received()
+		return viol("c06/stall/client-to-host", "the client sent %d payload bytes, the host received %d (first difference at %d) (%s)", total, len(got), firstDiff(got, want), desc)
+	}
+	return nil
+}
+
+func TestC06_STALL(t *testing.T) {
+	long := os.Getenv("VERIF_TIER") == "thorough"
+	runProp(t, "C06_STALL", func(t *rapid.T) c06Stall {
+		c := c06Stall{Opts: genC01Opts(t), Kind: genKind(t), Who: rapid.SampledFrom([]string{"client", "client", "host"}).Draw(t, "who"), Seed: rapid.Byte().Draw(t, "seed")}
+		c.StallMs = rapid.SampledFrom([]int{50, 300, 1500}).Draw(t, "stall")
+		if c.Who == "host" {
+			c.StallMs = rapid.SampledFrom([]int{300, 2500, 6500}).Draw(t, "hostStall")
+			if long {
+				c.StallMs = rapid.SampledFrom([]int{300, 2500, 5500, 6500, 8000}).Draw(t, "hostStallLong") // the harness's own sends give up after 10 s
+			}
+		} else {
+			c.Kind = "ws" // only the websocket client of the harness can stop reading
+			c.During = rapid.SliceOfN(rapid.SampledFrom([]string{"ka", "ka", "data", "unk"}), 0, 4).Draw(t, "during")
+		}
+		return c
+	}, func(c c06Stall) (bool, []string) {
+		return true, []string{"who=" + c.Who, "kind=" + c.Kind, fmt.Sprintf("stall=%d", c.StallMs)}
+	}, func(c c06Stall) *Violation {
+		o := resolveHosts(c.Opts)
+		return withGateway(mkGateway(o), func() *Violation {
+			return runC06Stall(c, o, inpTarget(userHeader(o, W().User)...))
+		})
 	})
 }
